@@ -1397,12 +1397,20 @@ class EBPF(EBPFBase):
 
         super().__init__(**kwargs)
 
-        for k, v in self.__class__.__dict__.items():
-            if isinstance(v, Map):
-                if load_maps is None:
-                    v.init(self, None)
-                else:
-                    v.init(self, bpf.obj_get(load_maps + k))
+        for k, v in self._maps():
+            if load_maps is None:
+                v.init(self, None)
+            else:
+                v.init(self, bpf.obj_get(load_maps + k))
+
+    def _maps(self):
+        """the maps of this program, including those declared in base classes"""
+        ret = {}
+        for cls in self.__class__.__mro__:
+            for k, v in cls.__dict__.items():
+                if isinstance(v, Map):
+                    ret.setdefault(k, v)
+        return ret.items()
 
     def pin_maps(self, path):
         """pin the maps of this program to files with prefix `path`
@@ -1411,9 +1419,8 @@ class EBPF(EBPFBase):
         directories must already exist, while the individual files
         must not exist.
         """
-        for k, v in self.__class__.__dict__.items():
-            if isinstance(v, Map):
-                bpf.obj_pin(path + k, getattr(self, v.name).fd)
+        for k, v in self._maps():
+            bpf.obj_pin(path + k, getattr(self, v.name).fd)
 
     def program(self):
         """overwrite this method with your program while subclassing"""
@@ -1449,9 +1456,8 @@ class EBPF(EBPFBase):
         self.loaded = True
         self.file_descriptor = fd
 
-        for v in self.__class__.__dict__.values():
-            if isinstance(v, Map):
-                v.load(self)
+        for k, v in self._maps():
+            v.load(self)
 
         return log
 
